@@ -505,6 +505,10 @@ func Run(sc Scenario, w *World) *Runner {
 	rn.cwg.Wait()
 	rn.bgCalls.Wait()
 	time.Sleep(budget / 2)
+	// Catch-up of a long backlog (small MaxAppendEntries, slow FSM) legitimately takes longer than
+	// the election part of the budget: keep waiting while every lagging member still advances;
+	// stop as soon as nobody moved for five election timeouts (that is the "no progress" verdict).
+	rn.waitCatchUp()
 	w.Log(Ev{K: "m.tail.probe"})
 	// probe write on the leader
 	if l := c.Leader(); l != nil {
@@ -551,4 +555,52 @@ func (rn *Runner) ShutdownAll() {
 	}
 	c.bg.Wait()
 	c.W.Log(Ev{K: "m.end"})
+}
+
+// waitCatchUp: see Run.
+func (rn *Runner) waitCatchUp() {
+	c := rn.C
+	el := time.Duration(rn.Sc.P.ElectionMs) * time.Millisecond
+	last := map[*Node]uint64{}
+	idle := 0
+	ext := 0
+	for i := 0; i < 3000 && idle < 5; i++ {
+		l := c.Leader()
+		if l == nil {
+			return
+		}
+		lin := l.Cur()
+		if lin == nil {
+			return
+		}
+		target := lin.r.AppliedIndex()
+		behind, moved := false, false
+		for _, nd := range c.Nodes {
+			in := nd.Cur()
+			if in == nil || nd == l {
+				continue
+			}
+			a := in.r.AppliedIndex()
+			if a < target {
+				behind = true
+			}
+			if a > last[nd] {
+				moved = true
+			}
+			last[nd] = a
+		}
+		if !behind {
+			break
+		}
+		if moved {
+			idle = 0
+		} else {
+			idle++
+		}
+		ext++
+		time.Sleep(el)
+	}
+	if ext > 0 {
+		c.W.Log(Ev{K: "m.tail.extended", A: uint64(ext)})
+	}
 }
